@@ -21,7 +21,7 @@ Steps == { StepDel("clm", "exp"), StepDel("clm", "nbf"), StepDel("clm", "iss"), 
            StepSet("clm", Val("str", "iss", "me", 1)), StepSet("clm", Val("str", "iss", "you", 1)),
            StepSet("clm", Val("str", "aud", "x", 0)),
            StepSet("hdr", Val("str", "alg", "none", 1)), StepSet("hdr", Val("str", "alg", "HS512", 1)) }
-CtlSteps == { CbRet(1), CbRet(0), CbKey(0), CbAlg("HS256"), CbKey(-1), CbKey(1) }
+CtlSteps == { CbRet(1), CbRet(0), CbRet(-1), CbRet(256), CbRet(-2147483647), CbKey(0), CbAlg("HS256"), CbKey(-1), CbKey(1) }
 
 RECURSIVE Progs(_)
 Progs(n) == IF n = 0 THEN {<<>>} ELSE {<<>>} \cup { <<s>> \o p : s \in Steps, p \in Progs(n - 1) }
